@@ -287,6 +287,14 @@ fn separate_root_renames(
     resolved_paths: &[PathBuf],
 ) -> (Vec<crate::scanner::Rename>, Vec<crate::scanner::Rename>) {
     paths.iter().cloned().partition(|rename| {
+        // a symbolic link that resolves to a search root is an entry of its own, not the root
+        if rename
+            .path
+            .symlink_metadata()
+            .is_ok_and(|m| m.file_type().is_symlink())
+        {
+            return false;
+        }
         resolved_paths.iter().any(|root_path| {
             rename.path.parent().is_none()
                 || rename
